@@ -148,12 +148,14 @@ YmRouteCls(r) ==
                           ELSE "partial/" \o MonthSrc(r.p) \o "/" \o r.ovf
     [] r.k = "new" -> "new" \o (IF Sup(r, "rd") THEN "+ref" ELSE "") \o "/" \o LimitTag(r.y, r.m) \o "/" \o r.ovf
     [] r.k = "with" -> "with/" \o Cls("yearmonth", "with", r.recv, r.p, r.ovf)
+    [] r.k = "default" -> "default"
 MdRouteCls(r) ==
   LET Feb(m, d) == IF m = 2 /\ d = 29 THEN "/feb29" ELSE ""
   IN CASE r.k = "str" -> "str/" \o r.f \o Feb(r.m, r.d)
        [] r.k = "date" -> "date" \o Feb(r.d.m, r.d.d)
        [] r.k = "new" -> IF Sup(r, "ry") THEN "new+ref" \o (IF ~YearOK(r.ry) THEN "/beyond" ELSE Feb(r.m, r.d)) \o "/" \o r.ovf
                          ELSE "new" \o Feb(r.m, r.d) \o "/" \o r.ovf
+       [] r.k = "default" -> "default"
 \* comparisons of two routes: which special kinds of route take part
 CmpTag(kind, r) == IF kind = "ym" THEN (IF Explicit(r) THEN "explicit" ELSE IF r.k = "partial" /\ Sup(r.p, "day") THEN "partial+day" ELSE "plain")
                    ELSE (IF MdExplicit(r) THEN "explicit" ELSE "plain")
